@@ -262,3 +262,82 @@ Lemma finalize_p_api items b : api_builder items = Taproot.Ok b -> forall s, fin
 Proof. unfold api_builder, finalize_p. intros R s. destruct (run_head_some triv triv items b R) as [->|(n & r & ->)]; [discriminate|].
   unfold Taproot.finalize. destruct (1 <? _)%nat; [discriminate|]. unfold from_node_info, new_key_spend, tap_tweak. cbn. discriminate. Qed.
 Lemma finalize_p_serde_refuted : finalize_p [None] = Taproot.Panic BuilderInvariant /\ known_F16 [None] = true. Proof. split; reflexivity. Qed.
+
+(* ------------------------------------------------------------------------------------------------ blech32 decode *)
+Definition validc (c : byte) : bool := match from_char c with Some _ => true | None => false end.
+Definition hpanic {A} (r : hres A) : bool := match r with HPanic _ => true | _ => false end.
+Lemma cc_valid s h d : Bech32.check_characters s = Bech32.Ok (h, d) -> forallb validc d = true.
+Proof. unfold Bech32.check_characters. destruct (rsplit x31 s) as [[h' d']|].
+  - fold validc. destruct (forallb validc d') eqn:F; cbn [negb]; [|discriminate]. destruct (_ && _); [discriminate|]. intros H; inversion H; subst. exact F.
+  - destruct (negb _); [discriminate|]. destruct (_ && _); discriminate. Qed.
+Lemma unchecked_new_p_spec s : unchecked_new_p s = of_res (Bech32.unchecked_new s).
+Proof. unfold unchecked_new_p, Bech32.unchecked_new. destruct (Bech32.check_characters s) as [[h d]|e]; cbn [of_res hbind]; [|reflexivity].
+  rewrite slice_from_ok by (cbn; lia). cbn [skipn of_outcome hbind]. destruct (hrp_parse h) as [[]|e]; reflexivity. Qed.
+Lemma unchecked_valid s h d : unchecked_new_p s = HOk (h, d) -> forallb validc d = true.
+Proof. unfold unchecked_new_p. destruct (Bech32.check_characters s) as [[h' d']|e] eqn:C; cbn [of_res hbind]; [|discriminate].
+  rewrite slice_from_ok by (cbn; lia). cbn [skipn of_outcome hbind]. destruct (hrp_parse h') as [[]|e]; cbn [of_res hbind]; [|discriminate].
+  intros H; inversion H; subst. exact (cc_valid _ _ _ C). Qed.
+Lemma unchecked_no_panic s : hpanic (unchecked_new_p s) = false.
+Proof. rewrite unchecked_new_p_spec. destruct (Bech32.unchecked_new s); reflexivity. Qed.
+Lemma syms_p_ok d : forallb validc d = true -> exists syms, syms_p d = HOk syms /\ length syms = length d.
+Proof. induction d as [|c r IH]; cbn [forallb syms_p]; [eauto|]. unfold validc at 1. intros H. apply andb_true_iff in H as [Hc Hr].
+  destruct (from_char c); [|discriminate]. destruct (IH Hr) as (t & -> & L). cbn [hbind]. eexists. split; [reflexivity|cbn; lia]. Qed.
+Lemma forallb_firstn {A} (p : A -> bool) n l : forallb p l = true -> forallb p (firstn n l) = true.
+Proof. revert n; induction l as [|a r IH]; intros [|n]; cbn; auto. intros H. apply andb_true_iff in H as [-> H]. now rewrite IH. Qed.
+Lemma forallb_skipn {A} (p : A -> bool) n l : forallb p l = true -> forallb p (skipn n l) = true.
+Proof. revert n; induction l as [|a r IH]; intros [|n]; cbn; auto. intros H. apply andb_true_iff in H as [_ H]. now apply IH. Qed.
+
+(* validate_checksum then remove_checksum: either an error, or the data without its checksum (still bech32 characters) *)
+Lemma checksum_steps c h d : forallb validc d = true ->
+  match hbind (validate_checksum_p c h d) (fun _ => remove_checksum_p c d) with
+  | HOk d' => forallb validc d' = true | HErr _ => True | HPanic _ => False end.
+Proof. intros V. unfold validate_checksum_p, remove_checksum_p.
+  destruct (Nat.eqb_spec (c_len c) 0) as [Z|NZ].
+  - cbn [hbind]. rewrite Z, usub_ok by lia. cbn [of_outcome hbind]. rewrite slice_to_ok by lia. cbn. now apply forallb_firstn.
+  - destruct (Nat.ltb_spec (length d) (c_len c)); [exact I|]. destruct (syms_p_ok d V) as (syms & -> & _). cbn [hbind].
+    destruct (valid_codeword _ _); cbn [hbind]; [|exact I]. rewrite usub_ok by lia. cbn [of_outcome hbind]. rewrite slice_to_ok by lia. cbn. now apply forallb_firstn. Qed.
+Lemma checked_no_panic c s : hpanic (checked_new_p c s) = false.
+Proof. unfold checked_new_p. pose proof (unchecked_no_panic s) as U. destruct (unchecked_new_p s) as [[h d]|e|w] eqn:Eu; cbn [hbind]; [|reflexivity|discriminate].
+  pose proof (checksum_steps c h d (unchecked_valid _ _ _ Eu)) as S.
+  destruct (validate_checksum_p c h d) as [[]|e|w]; cbn [hbind] in *; [|reflexivity|contradiction].
+  destruct (remove_checksum_p c d); cbn [hbind] in *; [reflexivity|reflexivity|contradiction]. Qed.
+
+Lemma validate_padding_no_panic d : forallb validc d = true -> hpanic (validate_padding_p d) = false.
+Proof. intros V. unfold validate_padding_p. destruct d as [|c r]; [reflexivity|]. set (d := c :: r) in *.
+  destruct (Nat.ltb_spec 4 (length d * 5 mod 8)) as [|P]; [reflexivity|]. destruct (syms_p_ok d V) as (syms & -> & L). cbn [hbind].
+  destruct syms as [|v t]; [cbn in L; lia|]. cbn [expect of_outcome hbind].
+  destruct (length d * 5 mod 8)%nat as [|[|[|[|[|p]]]]]; cbn [hbind]; try (destruct (0 <? _); reflexivity); [reflexivity|lia]. Qed.
+Lemma validate_segwit_no_panic h d : forallb validc d = true -> hpanic (validate_segwit_p h d) = false.
+Proof. intros V. unfold validate_segwit_p. destruct d as [|c r]; [reflexivity|]. rewrite (idx_ok (c :: r) 0 x00) by (cbn; lia). cbn [nth of_outcome hbind].
+  cbn [forallb] in V. apply andb_true_iff in V as [Vc Vr]. unfold validc in Vc. destruct (from_char c) as [ver|]; [|discriminate]. cbn [expect of_outcome hbind].
+  rewrite slice_from_ok by (cbn; lia). cbn [skipn of_outcome hbind]. pose proof (validate_padding_no_panic r Vr) as P.
+  destruct (validate_padding_p r) as [[]|e|w]; cbn [hbind] in *; [|reflexivity|discriminate]. unfold validate_wpl_p.
+  destruct (_ <? _)%nat; [reflexivity|]. destruct (_ <? _)%nat; [reflexivity|]. destruct (_ && _); reflexivity. Qed.
+
+(* after the front part, everything is guarded *)
+Lemma segwit_tail_no_panic c h d : forallb validc d = true ->
+  hpanic (hbind (validate_checksum_p c h d) (fun _ => hbind (remove_checksum_p c d) (fun d' => validate_segwit_p h d'))) = false.
+Proof. intros V. pose proof (checksum_steps c h d V) as S. destruct (validate_checksum_p c h d) as [[]|e|w]; cbn [hbind] in *; [|reflexivity|contradiction].
+  destruct (remove_checksum_p c d) as [d'|e|w]; cbn [hbind] in *; [|reflexivity|contradiction]. now apply validate_segwit_no_panic. Qed.
+Lemma segwit_front_spec guarded s :
+  match segwit_front guarded s with
+  | HOk (h, d, ver) => forallb validc d = true
+  | HErr _ => True
+  | HPanic _ => guarded = false /\ known_F1 s = true end.
+Proof. unfold segwit_front, known_F1. pose proof (unchecked_no_panic s) as U. destruct (unchecked_new_p s) as [[h d]|e|w] eqn:Eu; cbn [hbind]; [|exact I|discriminate].
+  pose proof (unchecked_valid _ _ _ Eu) as V. destruct d as [|c r].
+  - destruct guarded; cbn [andb Script.is_empty]; [exact I|]. cbn. auto.
+  - cbn [Script.is_empty]. rewrite andb_false_r. rewrite (idx_ok (c :: r) 0 x00) by (cbn; lia). cbn [nth of_outcome hbind].
+    pose proof V as V'. cbn [forallb] in V'. apply andb_true_iff in V' as [Vc _]. unfold validc in Vc. destruct (from_char c); [|discriminate]. cbn [expect of_outcome hbind].
+    destruct (_ <? _); [exact I|exact V]. Qed.
+Lemma segwit_new_no_panic s : hpanic (segwit_new_p s) = false.
+Proof. unfold segwit_new_p. pose proof (segwit_front_spec true s) as F. destruct (segwit_front true s) as [[[h d] ver]|e|w]; cbn [hbind]; [|reflexivity|destruct F; discriminate].
+  now apply segwit_tail_no_panic. Qed.
+(* new_bech32 panics exactly on the class of F1 *)
+Lemma segwit_new_bech32_panic_iff s : hpanic (segwit_new_bech32_p s) = known_F1 s.
+Proof. unfold segwit_new_bech32_p. pose proof (segwit_front_spec false s) as F. destruct (segwit_front false s) as [[[h d] ver]|e|w] eqn:Ef; cbn [hbind].
+  - rewrite segwit_tail_no_panic by exact F. symmetry. unfold segwit_front in Ef. unfold known_F1. destruct (unchecked_new_p s) as [[h' d']|e|w]; [|reflexivity|reflexivity].
+    destruct d' as [|c r]; [|reflexivity]. cbn in Ef. discriminate.
+  - unfold segwit_front in Ef. unfold known_F1. destruct (unchecked_new_p s) as [[h' d']|e'|w]; [|reflexivity|reflexivity]. destruct d' as [|c r]; [|reflexivity]. cbn in Ef. discriminate.
+  - destruct F as [_ ->]. reflexivity. Qed.
+Lemma segwit_new_bech32_refuted : segwit_new_bech32_p [x61; x31] = HPanic WIndex /\ known_F1 [x61; x31] = true. Proof. split; reflexivity. Qed.
